@@ -11,7 +11,9 @@
      Some false  numpy accepts, the model raises or parses differently. *)
 From Coq Require Import ZArith List Bool Lia Permutation Sorted.
 From Ctg Require Import Base Parse BaseFacts ParseFacts.
+From Ctg Require Import Net Einsum.
 Import ListNotations.
+Open Scope nat_scope.
 
 (* --- canonicalisation is an injective relabelling, applied consistently ------------------ *)
 (* canonicalize_inputs returns map f over the inputs and the output for ONE function f (the
@@ -31,6 +33,34 @@ Theorem C12_relabel_invariant : forall inputs output shapes sd ni no nsd m,
   (forall x y, In x (map fst m) -> In y (map fst m) -> im_fun m x = im_fun m y -> x = y).
 Proof. exact canonicalize_relabels. Qed.
 Print Assumptions C12_relabel_invariant.
+
+(* VALUE invariance (Model/Einsum.v einsum_spec, the mathematical einsum of C01): for ANY injective
+   renaming f of the labels of a network (inputs, output, size-dictionary keys), the einsum of the
+   renamed network at an assignment e' equals the einsum of the original network at e' o f. *)
+Theorem C12_einsum_relabel_invariant : forall f n (arr : nat -> ptensor) e',
+  inj_on f (net_labels n) ->
+  einsum_spec (relabel_net f n) [] arr e' = einsum_spec n [] arr (fun j => e' (f j)).
+Proof. exact einsum_relabel_invariant. Qed.
+Print Assumptions C12_einsum_relabel_invariant.
+
+(* what canonicalize_inputs returns IS the renamed network (sizes included: from the given size_dict,
+   a Python dict, i.e. distinct keys -- or from the shapes), for the injective f = final ind_map *)
+Theorem C12_canonicalize_is_relabelled_network : forall ins out shapes sd ni no nsd m,
+  canonicalize_inputs ins out shapes sd = (ni, no, Some nsd, m) ->
+  (match sd with Some sdv => NoDup (map fst sdv) | None => True end) ->
+  mkNet ni no nsd = relabel_net (im_fun m) (original_net ins out shapes sd) /\
+  inj_on (im_fun m) (net_labels (original_net ins out shapes sd)).
+Proof. exact canonicalize_is_relabel_net. Qed.
+Print Assumptions C12_canonicalize_is_relabelled_network.
+
+(* hence: the value of the canonicalised contraction is the value of the contraction asked for *)
+Theorem C12_relabel_value_invariant : forall ins out shapes sd ni no nsd m (arr : nat -> ptensor) e',
+  canonicalize_inputs ins out shapes sd = (ni, no, Some nsd, m) ->
+  (match sd with Some sdv => NoDup (map fst sdv) | None => True end) ->
+  einsum_spec (mkNet ni no nsd) [] arr e' =
+  einsum_spec (original_net ins out shapes sd) [] arr (fun j => e' (im_fun m j)).
+Proof. exact canonicalize_value_invariant. Qed.
+Print Assumptions C12_relabel_value_invariant.
 
 Theorem C12_get_symbol_injective : forall i j, get_symbol i = get_symbol j -> i = j.
 Proof. exact get_symbol_inj. Qed.
